@@ -23,6 +23,11 @@ def gen_sidecar(rng) -> typing.Tuple[bytes, typing.List[str]]:
         # blank lines are nowhere compared: the entry reader drops them)
         return rng.choice([b"", b"", b"\n", b"\r\n"]), []
     lines = [rng.choice(LINE_POOL) for _ in range(n)]
+    if rng.random() < 0.06:
+        # far more text than the server passes on (it reads about 20 KB of a sidecar): whole lines, from the start
+        lines = ["line %03d %s" % (k, "s" * 88) for k in range(300)] if rng.random() < 0.5 else ["k" * 30000, "tail"]
+        text = "\n".join(lines) + "\n"
+        return text.encode(), lines
     if n > 2 and rng.random() < 0.4:
         lines[rng.randrange(1, n - 1)] = ""        # an interior blank line
     if lines[-1].strip() == "":
@@ -41,8 +46,9 @@ def gen_dir(rng, scratch: str):
         n = "item%d%s%s" % (i, rng.choice(["", "", "", "-caf\udce9", " 50% {0}"]), ext)
         size = rng.choice([0, 1, 1023, 1024, 1025, 5000, 10240, 70000])
         data = trees.gen_content(rng, size, rng.choice(["text", "binary"]))
-        t.file("d/" + n, data)
-        items[n] = {"kind": "file", "size": size, "mime": mimeref.mime_for_ext(ext), "data": data, "ea": {}}
+        mtime = trees.FIXED_MTIME - 86400 * 400 * i - 3661 * i       # every item has a modification time of its own
+        t.file("d/" + n, data, mtime=mtime)
+        items[n] = {"kind": "file", "size": size, "mime": mimeref.mime_for_ext(ext), "data": data, "ea": {}, "mtime": mtime}
     for i in range(rng.randrange(0, 3)):
         n = "sub%d" % i
         t.file("d/%s/x.txt" % n, "x\n")
@@ -97,6 +103,16 @@ def check_item_blocks(chk: Check, name: str, it: typing.Optional[dict], blocks, 
     if not admin or admin[0] != b"Admin: " + ADMIN.encode():
         chk.witness("C15/admin-block", dict(sample, item=name, admin=admin))
         return False
+    if it is not None and it.get("mtime") is not None:
+        # the +ADMIN block's Mod-Date is the item's modification time (local time, <YYYYMMDDhhmmss>)
+        import time
+        md = [ln for ln in admin if ln.startswith(b"Mod-Date: ")]
+        want_md = time.strftime("%Y%m%d%H%M%S", time.localtime(it["mtime"])).encode()
+        m_md = re.search(rb"<(\d{14})>", md[0]) if md else None
+        if not m_md or m_md.group(1) != want_md:
+            chk.witness("C15/admin-mod-date", dict(sample, item=name, admin=admin, expected=want_md))
+            return False
+        chk.count("mod_dates_compared")
     views = blocks[2][1]
     if len(views) != 1:
         chk.witness("C15/views-block-lines", dict(sample, item=name, views=views))
@@ -128,6 +144,11 @@ def check_item_blocks(chk: Check, name: str, it: typing.Optional[dict], blocks, 
         return False
     for bname, lines in blocks[3:]:
         exp = [x.encode("utf-8", "surrogateescape") for x in it["ea"][bname]]
+        if sum(len(x) + 1 for x in exp) > 20000 and len(lines) < len(exp):
+            # a long sidecar may be passed on in part: whole lines from the start, about 20 KB of them at least
+            if lines == exp[:len(lines)] and sum(len(x) + 1 for x in lines) >= 20000:
+                chk.count("long_sidecars_passed_on_in_part")
+                continue
         if lines != exp:
             chk.witness("C15/sidecar-block-lines", dict(sample, item=name, block=bname, got=lines[:4], expected=exp[:4]))
             return False
